@@ -49,6 +49,9 @@ fn sym_msg(sym: &str) -> Option<Msg> {
         "Request" => Some(Msg::Request(0, 0, 1)),
         "Interested" => Some(Msg::Interested),
         "NotInterested" => Some(Msg::NotInterested),
+        "Cancel" => Some(Msg::Cancel(0, 0, 1)),
+        "Bitfield" => Some(Msg::Bitfield(vec![0xc0])),
+        "Piece" => Some(Msg::Piece(1, 0, vec![7])), // a block nobody asked for is still a sign of life
         "Handshake" => Some(refwire::handshake(&[0; 20], &[0; 20])), // placeholder, see concretize
         _ => None,
     }
@@ -324,6 +327,8 @@ pub fn scenarios(thorough: bool) -> Vec<Timed> {
             Timed { slots: vec![30, 90], symbols: vec!["nothing", "Interested", "NotInterested", "Rotate", "KeepAlive"], intervals: 8, handshaken: true, outgoing: true },
             Timed { slots: vec![60], symbols: vec!["nothing", "Interested", "Rotate", "KeepAlive", "Have"], intervals: 9, handshaken: true, outgoing: false },
             Timed { slots: vec![30, 90], symbols: vec!["nothing", "Unchoke", "Choke", "Have", "Pause", "Resume"], intervals: 7, handshaken: true, outgoing: true },
+            Timed { slots: vec![60], symbols: vec!["nothing", "KeepAlive", "Choke", "Unchoke", "Interested", "NotInterested", "Have", "Bitfield", "Request", "Piece", "Cancel"], intervals: 6, handshaken: true, outgoing: true },
+            Timed { slots: vec![60], symbols: vec!["nothing", "KeepAlive", "Interested", "Have", "Request", "Piece", "Cancel"], intervals: 6, handshaken: true, outgoing: false },
         ]
     } else {
         vec![
@@ -336,6 +341,8 @@ pub fn scenarios(thorough: bool) -> Vec<Timed> {
             Timed { slots: vec![60], symbols: vec!["nothing", "Interested", "Rotate", "KeepAlive"], intervals: 7, handshaken: true, outgoing: true },
             // a busy manager holds the connection task up across keep-alive deadlines
             Timed { slots: vec![60], symbols: vec!["nothing", "Unchoke", "Choke", "Pause", "Resume"], intervals: 8, handshaken: true, outgoing: true },
+            // every message kind as the only sign of life
+            Timed { slots: vec![60], symbols: vec!["nothing", "KeepAlive", "Choke", "Unchoke", "Interested", "NotInterested", "Have", "Bitfield", "Request", "Piece", "Cancel"], intervals: 4, handshaken: true, outgoing: true },
         ]
     }
 }
